@@ -713,11 +713,18 @@ impl<'a> GeneratorState<'a> {
                     }
                 }
             },
-            ExprType::AbsoluteY(_) => {
+            ExprType::AbsoluteY(variable) => {
+                let v = self.compiler_state.get_variable(variable);
                 let op = if plusplus { Operation::Add(false) } else { Operation::Sub(false) };
                 let right = ExprType::Immediate(1);
                 let newright = self.generate_arithm(expr_type, &op, &right, pos, false)?;
-                self.generate_assign(expr_type, &newright, pos, false)
+                let ret = self.generate_assign(expr_type, &newright, pos, false);
+                // The elements of an array of shorts or of pointers are 16 bits wide, as with an X index
+                if v.var_type == VariableType::CharPtrPtr || v.var_type == VariableType::ShortPtr {
+                    let newright = self.generate_arithm(expr_type, &op, &right, pos, true)?;
+                    self.generate_assign(expr_type, &newright, pos, true)?;
+                }
+                ret
             },
             _ => {
                 if plusplus {
